@@ -29,6 +29,13 @@
 (* Deviation "aliasgate" reproduces the gating of the pinned tree on       *)
 (* field_errors keyed by ALIAS while dependencies are NAMES.               *)
 (*                                                                         *)
+(* case.maxp: an OBJECT-LEVEL constraint, @schema(max_props=maxp) on the    *)
+(* class (0: none).  Its violation is a structural error at the root of    *)
+(* the object, collected BEFORE the field loop; like any error it prevents *)
+(* the construction and is merged with the validators' errors, but it      *)
+(* gates no validator (no field is invalid).  Deviation "rooterrdropped"   *)
+(* (seeded shape): with no field error the root errors are forgotten.      *)
+(*                                                                         *)
 (* case.ext: validators that are NOT bound to the class -- given through   *)
 (* field metadata of an enclosing object, through Annotated[K, validators] *)
 (* or through deserialize(..., validators=[...]) (case.extmode says which).*)
@@ -88,9 +95,13 @@ ValErr(v) ==
   IN {<< base, "validator:" \o v.name >>}
        \cup (IF v.style = "yieldpath" /\ v.deps # {} THEN {<< base, "validator:" \o v.name \o ":2" >>} ELSE {})
 
+\* the properties present in the datum (valid or not) against @schema(max_props=c.maxp)
+RootErrOf(c) == IF c.maxp > 0 /\ Cardinality({i \in DOMAIN c.fields : c.fields[i].st # "absent"}) > c.maxp
+                THEN {<< <<>>, "maxProperties" >>} ELSE {}
+
 ---------------------------------------------------------------------------
 \* ---- construction of the case
-Init == /\ case = [fields |-> <<>>, vals |-> <<>>, depreq |-> FALSE, ext |-> <<>>, extmode |-> "arg"]
+Init == /\ case = [fields |-> <<>>, vals |-> <<>>, depreq |-> FALSE, ext |-> <<>>, extmode |-> "arg", maxp |-> 0]
         /\ phase = "build" /\ fi = 1 /\ provided = {} /\ ferr = {}
         /\ pending = <<>> /\ errs = {} /\ ran = <<>> /\ constructed = 0
 
@@ -137,11 +148,14 @@ ExtOptions ==
 StartCase == /\ phase = "build" /\ case.fields # <<>> /\ case.vals # <<>>
              /\ phase' = "fields"
              \* dependent_required({a: [b]}) needs two optional fields
-             /\ \E dr \in BOOLEAN, ex \in ExtOptions, em \in ExtModes :
+             /\ \E dr \in BOOLEAN, ex \in ExtOptions, em \in ExtModes, mp \in {0, 1} :
                    /\ dr => (Len(case.fields) >= 2 /\ ~case.fields[1].req /\ ~case.fields[2].req)
                    /\ (ex = <<>> => em = "arg")
-                   /\ case' = [case EXCEPT !.depreq = dr, !.ext = ex, !.extmode = em]
-             /\ UNCHANGED <<fi, provided, ferr, pending, errs, ran, constructed>>
+                   /\ mp > 0 => (Len(case.fields) >= 2 /\ ~dr /\ ex = <<>>)
+                   /\ case' = [case EXCEPT !.depreq = dr, !.ext = ex, !.extmode = em, !.maxp = mp]
+                   \* the object-level constraints are checked first
+                   /\ errs' = RootErrOf([case EXCEPT !.maxp = mp])
+             /\ UNCHANGED <<fi, provided, ferr, pending, ran, constructed>>
 
 ---------------------------------------------------------------------------
 \* ---- Layer M: the code's steps
@@ -167,9 +181,11 @@ InvalidForGate == IF "aliasgate" \in Deviations THEN {AliasOf(n) : n \in ferr} E
 Gate ==
   /\ phase = "gate"
   /\ pending' = SelectSeq(Vals, LAMBDA v : v.deps \cap provided # {} /\ v.deps \cap InvalidForGate = {})
-  /\ constructed' = IF errs = {} THEN 1 ELSE 0       \* constructor.construct(values) before validate
+  \* deviation "rooterrdropped": `if field_errors:` instead of `if field_errors or errors:`
+  /\ errs' = IF "rooterrdropped" \in Deviations /\ ferr = {} THEN {} ELSE errs
+  /\ constructed' = IF errs' = {} THEN 1 ELSE 0       \* constructor.construct(values) before validate
   /\ phase' = "validate"
-  /\ UNCHANGED <<case, fi, provided, ferr, errs, ran>>
+  /\ UNCHANGED <<case, fi, provided, ferr, ran>>
 
 \* one iteration of validate(): run the head validator
 Run ==
@@ -208,7 +224,7 @@ ViewNoHistory == <<case, phase, fi, provided, ferr, pending, errs, constructed>>
 \* ---- Layer R: the rule stated by the property
 AllProvided == {f \in FieldNames : FieldByName(f).st = "valid"}
 AllInvalid  == {f \in FieldNames : StructErr(FieldByName(f)) # {}}
-AllStructErr == UNION {StructErr(Fields[i]) : i \in DOMAIN Fields}
+AllStructErr == RootErrOf(case) \cup UNION {StructErr(Fields[i]) : i \in DOMAIN Fields}
 
 RECURSIVE RefRun(_, _, _)
 \* validators that must run, in declaration order, given the discarded set so far
